@@ -153,7 +153,7 @@ class GreedySchedulingFromPlan(Scheduling):
                 allocations[task] = machine
                 temporary_resources.remove(machine)
                 self.alternate += 1
-        else:
+        elif machine in temporary_resources:
             allocations[task] = machine
             temporary_resources.remove(machine)
             self.accurate += 1
